@@ -21,7 +21,8 @@ const (
 
 // MigrationFileName ...
 func MigrationFileName(name string) string {
-	re, _ := regexp.Compile(`[^\w\d\s-_]`)
+	// keep letters, digits, blanks, '-' and '_'; other white space (tabs, line breaks) must not end up in a file name
+	re, _ := regexp.Compile(`[^\w\d \-_]`)
 	name = strings.ToLower(re.ReplaceAllString(name, ""))
 	name = strings.Replace(name, "  ", " ", -1)
 	name = strings.Replace(name, " ", "_", -1)
